@@ -48,6 +48,23 @@ def memExport {ν : Type} (regions : List (ν × Region)) : List (ν × Nat × N
 def selectedSlaves {ν : Type} (aw dw : Nat) (regions : List (ν × Region)) (a : Nat) : List ν :=
   (regions.filter fun p => decoderAccepts aw dw p.2 a).map (·.1)
 
+/-! ### linker files -/
+
+/-- `get_linker_regions(soc.mem_regions)` (regions.ld, and the `MEMORY { }` block of `get_memory_x`): one line
+    `name : ORIGIN = origin, LENGTH = size` for EVERY entry of `soc.mem_regions = bus.regions`, in dictionary order — nothing
+    is skipped or renamed (linker-only regions, `linker=True`, are listed like the others; the length is `size`, not
+    `size_pow2`). -/
+def ldRegions {ν : Type} (regions : List (ν × Region)) : List (ν × Nat × Nat) :=
+  regions.map fun p => (p.1, p.2.origin, p.2.size)
+
+/-- `get_memory_x(soc)`: the same MEMORY block, the fixed aliases, and `_stext = soc.cpu.reset_address`. -/
+def memoryX {ν : Type} (regions : List (ν × Region)) (resetAddress : Nat) : List (ν × Nat × Nat) × Nat :=
+  (ldRegions regions, resetAddress)
+
+/-- Two linker lines describe byte ranges that share an address. -/
+def ldOverlap {ν : Type} (a b : ν × Nat × Nat) : Prop :=
+  ∃ x, (a.2.1 ≤ x ∧ x < a.2.1 + a.2.2) ∧ (b.2.1 ≤ x ∧ x < b.2.1 + b.2.2)
+
 /-! ### SVD register list with register kinds -/
 
 /-- Entries of one register in the SVD: `nwords` for a compound CSR (`CSRStorage`/`CSRStatus`) with more than one word,
